@@ -49,7 +49,7 @@ def is_nontrivial(u0, u1, states, slots):
     return False
 
 
-def describe_mismatch(got, exp):
+def describe_mismatch(got, exp, base=0):
     from mc import pattern
 
     n = min(len(got), len(exp))
@@ -60,8 +60,8 @@ def describe_mismatch(got, exp):
         "first_diff": first,
         "got_at_diff": got[first : first + PREFIX].hex(),
         "expected_at_diff": exp[first : first + PREFIX].hex(),
-        "got_sectors": pattern.describe(got[first - first % 512 :]),
-        "expected_sectors": pattern.describe(exp[first - first % 512 :]),
+        "got_sectors": pattern.describe(got[max(0, first - (base + first) % 512) :]),
+        "expected_sectors": pattern.describe(exp[max(0, first - (base + first) % 512) :]),
     }
 
 
@@ -105,7 +105,7 @@ def compare_reads(ctx, case, stream, disk, requests, subject, states=None, slots
                           {"subject": subject, "kind": "mismatch", "via": via, "touched": touched,
                            "start_aligned": a % unit == 0, "past_end": a + n > size,
                            "short": len(got) < len(exp), "long": len(got) > len(exp)},
-                          dict(describe_mismatch(got, exp), offset=a, length=n))
+                          dict(describe_mismatch(got, exp, a), offset=a, length=n))
         else:
             pos = stream.tell()
             if pos != a + len(exp):
@@ -149,4 +149,4 @@ def compare_sector_reads(ctx, case, reader, disk, requests, subject, sector_size
                           {"subject": subject, "kind": "mismatch", "via": via, "touched": touched,
                            "start_aligned": a % unit == 0, "past_end": a + n > size,
                            "short": len(got) < len(exp), "long": len(got) > len(exp)},
-                          dict(describe_mismatch(got, exp), sector=s, count=c))
+                          dict(describe_mismatch(got, exp, a), sector=s, count=c))
